@@ -56,6 +56,29 @@ func outcome(r clientx.Run) string {
 	return s
 }
 
+// callResult is the outcome of the call as its caller sees it (not how the transport was used to get there).
+func callResult(r clientx.Run) string {
+	s := fmt.Sprintf("panic=%q hang=%v ", r.Panic, r.Hang)
+	if lib.IsNil(r.Resp) {
+		s += "resp=nil "
+	} else {
+		s += fmt.Sprintf("resp=%T:%x ", r.Resp, r.Resp.Bytes())
+	}
+	if r.Err != nil {
+		s += fmt.Sprintf("err=%T:%v", r.Err, r.Err)
+	}
+	return s
+}
+
+// judgeOutcomeOnly: the hooked and the hook-less client could not be given identical transport answers (they read
+// differently); what the statement demands - the same outcome of the call - is compared.
+func judgeOutcomeOnly(sc clientx.Sc, with, without clientx.Run, c Case, res *ev.Result) {
+	if o1, o2 := callResult(with), callResult(without); o1 != o2 {
+		res.Violate(ev.Violation{Check: "hooks", Kind: "hooks-change-outcome", Attrs: map[string]any{"client": sc.Kind.String(), "_fc": int(sc.Req.FC)},
+			Msg: fmt.Sprintf("%s choices=%v: with hooks: %s | without (nearest transport answers): %s", sc.Name, c.Choices, o1, o2), Case: c})
+	}
+}
+
 func judge(sc clientx.Sc, with, without clientx.Run, c Case, res *ev.Result) {
 	attrs := map[string]any{"client": sc.Kind.String(), "_fc": int(sc.Req.FC)}
 	bad := func(kind, msg string) {
@@ -262,10 +285,20 @@ func run(tier string, shard, nsh int, res *ev.Result) {
 					explore.Replay(func(y *explore.Ctx) { wo = runOne(sc, base, y, false) }, c.Choices)
 				}()
 				if diverged != "" {
-					// the client without hooks did not even make the same transport calls (another buffer size, another
-					// number of reads) under the same transport answers: installing hooks changes what the client does
-					res.Violate(ev.Violation{Check: "hooks", Kind: "hooks-change-transport-calls", Attrs: map[string]any{"client": sc.Kind.String()},
-						Msg: fmt.Sprintf("%s choices=%v: with hooks installed the client made transport calls that the client without hooks, given the same answers, does not make (%s)", sc.Name, c.Choices, diverged), Case: c})
+					// the client without hooks does not make the same transport calls (another window size, another number of
+					// reads), so the recorded answers do not fit it exactly. The statement only demands that the OUTCOME is the
+					// same: the hook-less client is run against the same byte stream with the nearest answers that exist for it
+					func() {
+						defer func() {
+							if rec := recover(); rec != nil {
+								res.Violate(ev.Violation{Check: "hooks", Kind: "hooks-change-transport-calls", Attrs: map[string]any{"client": sc.Kind.String()},
+									Msg: fmt.Sprintf("%s choices=%v: the client without hooks cannot be run against the answers the hooked client got (%v / %s)", sc.Name, c.Choices, rec, diverged), Case: c})
+								wo = with // nothing more to compare
+							}
+						}()
+						explore.ReplayLenient(func(y *explore.Ctx) { wo = runOne(sc, base, y, false) }, c.Choices)
+					}()
+					judgeOutcomeOnly(sc, with, wo, c, res)
 					return
 				}
 				judge(sc, with, wo, c, res)
